@@ -187,6 +187,11 @@ def run(ctx):
     ctx.floor(nh, 12, 'state-changing sites in packet handlers')
     for cs in sq:
         requires(ctx, spc, cs.bb, [r'^\(context\.current_time < Option::unwrap\(self\.connack_timeout_timepoint\)\)$'], 'connack-deadline', 'servicing the queue while pending CONNACK', loc=cs.loc())
+    nxc = ctx.fn('ProtocolState::get_next_service_timepoint_pending_connack')
+    okd, _, badr = prims.consulted_on_every_return(nxc, 'connack_timeout_timepoint')
+    ctx.ob(okd, 'while pending CONNACK the reported next service time always takes the CONNACK deadline into account, whatever else is pending (so a driver that sleeps until then observes the deadline)%s' % ('' if okd else ' — return at %s ignores it' % nxc.loc(badr)), 'connack-deadline|next-service', loc=nxc.loc())
+    rvx = [show(e) for b, e in prims.ret_variants(nxc)]
+    ctx.ob(bool(rvx) and all('connack_timeout_timepoint' in x for x in rvx), 'every answer of the PendingConnack next-service function is computed from the CONNACK deadline (%s)' % [x[:60] for x in rvx], 'connack-deadline|next-service-value', loc=nxc.loc())
 
     # ------------------------------------------------------------ R-C07-5
     ctx.rule('R-C07-5', 'T11 decision table + T1', 'clean start = {PostSuccess: !connected_previously, Always: false, Never: true}; the has-connected flag is set only by a successful CONNACK and cleared by reset; the CONNECT falls back to the negotiated client id')
